@@ -1024,20 +1024,25 @@ func fullTagAppend(bi, b *blockPointer, offset int) {
 		return
 	}
 
-	tagFamilyMap := make(map[string]*columnFamily)
+	// Families and columns are addressed by index: appending a new family or column below may
+	// reallocate the slice, and a pointer taken before would then update a stale copy.
+	tagFamilyIdx := make(map[string]int)
 	for i := range bi.tagFamilies {
-		tagFamilyMap[bi.tagFamilies[i].name] = &bi.tagFamilies[i]
+		tagFamilyIdx[bi.tagFamilies[i].name] = i
 	}
+	tagFamilyMap := make(map[string]*columnFamily)
 
 	for _, tf := range b.tagFamilies {
-		if existingTagFamily, exists := tagFamilyMap[tf.name]; exists {
-			columnMap := make(map[string]*column)
+		if familyIdx, exists := tagFamilyIdx[tf.name]; exists {
+			existingTagFamily := &bi.tagFamilies[familyIdx]
+			columnIdx := make(map[string]int)
 			for i := range existingTagFamily.columns {
-				columnMap[existingTagFamily.columns[i].name] = &existingTagFamily.columns[i]
+				columnIdx[existingTagFamily.columns[i].name] = i
 			}
 
 			for _, c := range tf.columns {
-				if existingColumn, exists := columnMap[c.name]; exists {
+				if idx, exists := columnIdx[c.name]; exists {
+					existingColumn := &existingTagFamily.columns[idx]
 					assertIdxAndOffset(c.name, len(c.values), b.idx, offset)
 					existingColumn.values = append(existingColumn.values, c.values[b.idx:offset]...)
 				} else {
@@ -1116,13 +1121,16 @@ func fullFieldAppend(bi, b *blockPointer, offset int) {
 		return
 	}
 
-	fieldMap := make(map[string]*column)
+	fieldIdx := make(map[string]int)
 	for i := range bi.field.columns {
-		fieldMap[bi.field.columns[i].name] = &bi.field.columns[i]
+		fieldIdx[bi.field.columns[i].name] = i
 	}
+	fieldMap := make(map[string]*column)
 
 	for _, c := range b.field.columns {
-		if existingField, exists := fieldMap[c.name]; exists {
+		if idx, exists := fieldIdx[c.name]; exists {
+			// by index: appendFields below may reallocate bi.field.columns
+			existingField := &bi.field.columns[idx]
 			assertIdxAndOffset(c.name, len(c.values), b.idx, offset)
 			existingField.values = append(existingField.values, c.values[b.idx:offset]...)
 		} else {
